@@ -97,6 +97,11 @@ def oracle_c01(rr: Any, spec: Dict[str, Any]) -> List[Violation]:
 def oracle_c02(rr: Any, spec: Dict[str, Any]) -> "tuple[List[Violation], int, int]":
     """Returns (violations, prefixes examined, acks seen)."""
     tr = rr.trace
+    ret = first(tr, "listen_returned")
+    if ret is not None:
+        # what happens after listen() has returned is the harness closing its event loop (it cancels the callbacks
+        # that wait_tasks_timeout left behind), not the worker
+        tr = [e for e in tr if e["i"] <= ret["i"]]
     v: List[Violation] = []
     ack_type = spec.get("cfg", {}).get("ack", "when_saved")
     info = {i["d"]: i for i in rr.sc.deliveries}
@@ -298,6 +303,8 @@ def oracle_c05(rr: Any, spec: Dict[str, Any]) -> List[Violation]:
     tr = rr.trace
     cfg = spec.get("cfg", {})
     A, N, W = cfg.get("A"), cfg.get("N"), cfg.get("W")
+    if not A or A < 0:
+        A = None  # no limit
     v: List[Violation] = []
     if rr.outcome == "raised":
         return [Violation("listen-raised", f"listen() raised {rr.err}")]
